@@ -90,7 +90,10 @@ Vec(Fx, geo, t, m) ==
 (* Two-level enumeration: Init picks a "seed" (Fx, geo, t, a); Next expands (b, c).  This
    keeps TLC's (sequential) initial-state generation tiny and lets the workers expand the
    seeds in parallel.                                                                   *)
-Init == \E Fx \in FMs, geo \in Geos : \E t \in (-TPad)..(Fx + TPad), a \in -K..K :
+(* the yaw range limit ln Fx / (2 cn) must be an integer number of motor-force units, otherwise MSat's integer
+   division misstates the limit (F_max = 4 with l = 0.25, Cm = 1 has the limit 0.5): such pairs are not enumerated *)
+GeoOK(Fx, geo) == (geo[1] * Fx) % (2 * geo[2]) = 0
+Init == \E Fx \in FMs, geo \in Geos : GeoOK(Fx, geo) /\ \E t \in (-TPad)..(Fx + TPad), a \in -K..K :
            tv = [fn |-> "seed", FM |-> Fx, geo |-> geo, t |-> t, a |-> a]
 Next == /\ tv.fn = "seed"
         /\ \E b \in -K..K, c \in -K..K : tv' = Vec(tv.FM, tv.geo, tv.t, <<tv.a, b, c>>)
